@@ -34,7 +34,15 @@ def check_total_power(ctx, ck):
             vals.add('self.power is stored %d times' % len(st_i))
             after = False
             continue
-        vals.add(canon_k(norm(p_.events[st_i[0]][2])))
+        v_ = p_.events[st_i[0]][2]
+        # sum(...) / np.sum([...]) / math.fsum(...) over a generator or a list built by a comprehension
+        from ..symx import _each_of
+        if isinstance(v_, ast.Call) and (dotted(v_.func) or '').split('.')[-1] in ('sum', 'fsum') and len(v_.args) == 1 and \
+           not v_.keywords and _each_of(v_.args[0]) is not None:
+            e_, it_ = _each_of(v_.args[0])
+            v_ = ast.Call(func=ast.Name(id='sum', ctx=ast.Load()),
+                          args=[ast.Call(func=ast.Name(id='_each', ctx=ast.Load()), args=[e_, it_], keywords=[])], keywords=[])
+        vals.add(canon_k(norm(v_)))
         after = after and len(sv_i) == 1 and sv_i[0] < st_i[0]
     ok = vals == {'sum(_each(self.sources[_k0].power, self.sources))'}
     ck.ob('R-DEP.total-power', COMPUTE + '|sum-over-all-sources', ok, f.loc(),
